@@ -20,10 +20,15 @@ def _group_matching(tlist, cls):
     """Groups Tokens that have beginning and end."""
     opens = []
     tidx_offset = 0
+    # The tokens delimiting tlist itself (e.g. the END of a CASE) never open
+    # or close a group of another class inside of it.
+    own = ()
+    if isinstance(tlist, T_DELIMITED) and tlist.tokens:
+        own = (tlist.tokens[0], tlist.token_next_by(m=tlist.M_CLOSE)[1])
     for idx, token in enumerate(list(tlist)):
         tidx = idx - tidx_offset
 
-        if token.is_whitespace:
+        if token.is_whitespace or token in own:
             # ~50% of tokens will be whitespace. Will checking early
             # for them avoid 3 comparisons, but then add 1 more comparison
             # for the other ~50% of tokens...
